@@ -6,6 +6,7 @@ from .model import AnalysisError, node_src, is_self_attr, call_name
 from .paths import Interp, Domain, Env, TOP, NONE, Const, TupleV, Exc, ORD, fmt_trace, Opaque, Ctx, Neq
 from .report import walk_no_nested
 from . import wire
+from .colls import ExactCollections, DictV, deref
 
 LEVEL = "other"
 LEVEL_TEXT = (
@@ -312,6 +313,229 @@ def run_cmd_problems(prog):
     return problems
 
 
+class HashDomain(ExactCollections, Domain):
+    """HashClient's multi-key operations interpreted end to end: symbolic keys K1..Kn, a scripted router
+    (key -> server name or None), scripted per-server answers.  Lists / dicts / defaultdicts are heap objects
+    (pmcsa/colls.py), private helpers are inlined except the router and the safe runners, which are summarised and
+    recorded.  Observed: the runner calls (which client, which bound method, which default, which payload) and the value
+    returned to the caller."""
+
+    async_enabled = False
+    subscript_may_raise = False
+    unpack_may_raise = False
+    max_inline_depth = 3
+    global_keys = ("runs", "routes", "imprecise")
+    SUMMARISED = ("_get_client", "_safely_run_func", "_safely_run_set_many", "_make_client_key", "_retry_dead", "_mark_failed_server")
+
+    def __init__(self, prog, fn, route, fails=()):
+        super().__init__(prog, fn)
+        self.route = route  # key tag -> server name | None
+        self.fails = set(fails)  # inner keys the server refuses (set_many)
+
+    def mark_imprecise(self, state, node):
+        return state.set("imprecise", 1)
+
+    def name_load(self, name, state, node=None):
+        return state.get(name, TOP)
+
+    def attr_load(self, objval, node, state):
+        b = self.coll_attr(objval, node)
+        if b is not None:
+            return b
+        if is_self_attr(node, "clients"):
+            return Opaque("clients")
+        if is_self_attr(node):
+            return state.get("self." + node.attr, TOP)
+        if isinstance(objval, Opaque) and objval.tag.startswith("client:"):
+            if node.attr == "server":
+                return Opaque("server:" + objval.tag[7:])
+            return BoundCall(objval, Const(node.attr))
+        return TOP
+
+    def subscript_load(self, objval, idxval, node, state):
+        if objval == Opaque("clients") and isinstance(idxval, Opaque) and idxval.tag.startswith("node:"):
+            return Opaque("client:" + idxval.tag[5:]), False
+        return TOP, False
+
+    def _flat(self, node, args, state, skip=0):
+        out = []
+        for an, av in list(zip(node.args, args))[skip:]:
+            if isinstance(an, ast.Starred):
+                seq = self._seq(av, state)
+                if seq is None:
+                    out.append(("STAR?", str(av)))
+                else:
+                    out += [deref(x, state) for x in seq]
+            else:
+                out.append(deref(av, state))
+        return tuple(out)
+
+    def call(self, node, fval, args, kwargs, state):
+        r = self.coll_call(node, fval, args, kwargs, state)
+        if r is not None:
+            return r
+        name = call_name(node)
+        if name == "self._get_client":
+            k = args[0] if args else TOP
+            tag = k.tag if isinstance(k, Opaque) else None
+            st = state.set("routes", state.get("routes", ()) + (deref(k, state),))
+            if tag not in self.route:
+                return [("ok", TupleV((TOP, TOP)), self.mark_imprecise(st, node))]
+            srv = self.route[tag]
+            return [("ok", TupleV((Opaque("client:" + srv) if srv is not None else NONE, Opaque("inner:" + tag))), st)]
+        if name == "self._make_client_key" and args and isinstance(args[0], Opaque) and args[0].tag.startswith("server:"):
+            return [("ok", Opaque("node:" + args[0].tag[7:]), state)]
+        if name == "getattr" and len(args) == 2 and isinstance(args[0], Opaque) and args[0].tag.startswith("client:"):
+            return [("ok", BoundCall(args[0], args[1]), state)]
+        if name in ("self._safely_run_func", "self._safely_run_set_many"):
+            flat = self._flat(node, args, state)
+            kw = tuple(sorted((k, deref(v, state)) for k, v in kwargs.items() if not k.startswith("**")))
+            st = state.set("runs", state.get("runs", ()) + ((name[5:], flat, kw),))
+            client = flat[0] if flat else TOP
+            srv = client.tag[7:] if isinstance(client, Opaque) and client.tag.startswith("client:") else "?"
+            if name.endswith("set_many"):
+                batch = flat[1] if len(flat) > 1 else TOP
+                failed = tuple(k for k, v in batch.items if isinstance(k, Opaque) and k.tag in self.fails) if isinstance(batch, DictV) else None
+                if failed is None:
+                    return [("ok", TOP, self.mark_imprecise(st, node))]
+                return [("ok",) + self.alloc(st, node, "list", TupleV(failed))]
+            func = flat[1] if len(flat) > 1 else TOP
+            if isinstance(func, BoundCall) and func.attr in (Const("get_many"), Const("gets_many")):
+                payload = flat[3] if len(flat) > 3 else TOP
+                if isinstance(payload, TupleV):
+                    ans = DictV(tuple((k, Opaque("value:%s:%s" % (srv, k.tag if isinstance(k, Opaque) else k))) for k in payload.items))
+                    return [("ok",) + self.alloc(st, node, "dict", ans)]
+                return [("ok", TOP, self.mark_imprecise(st, node))]
+            return [("ok", Opaque("answer:%s" % srv), st)]
+        if name.startswith("self.") and name.count(".") == 1 and name[5:] not in self.SUMMARISED and self.prog is not None:
+            m = self.prog.cls("HashClient").methods.get(name[5:])
+            if m is not None:
+                res = self.inline(node, m, args, kwargs, state)
+                if res is not None:
+                    return res
+        return [("ok", TOP, state)]
+
+
+def batching_rows(prog, hc, r3, r4):
+    """C12.R3 (batching and dispatch) and R4 (merge), decided on what get_many / gets_many / set_many / delete_many do
+    with three symbolic keys under every routing pattern over two servers (and 'no server left')."""
+    from .colls import GenV, new_object
+    from .rules_C05 import Val
+
+    K = [Opaque("K1"), Opaque("K2"), Opaque("K3")]
+    I = {k.tag: Opaque("inner:" + k.tag) for k in K}
+    routes = [
+        {"K1": "A", "K2": "B", "K3": "A"},
+        {"K1": "B", "K2": "B", "K3": "A"},
+        {"K1": "A", "K2": "A", "K3": "A"},
+        {"K1": "A", "K2": None, "K3": "A"},
+        {"K1": None, "K2": None, "K3": None},
+    ]
+
+    def servers_in_order(route):
+        out = []
+        for k in K:
+            if route[k.tag] is not None and route[k.tag] not in out:
+                out.append(route[k.tag])
+        return out
+
+    def run(mname, route, oneshot=False, fails=(), gets=None, extra=()):
+        f = prog.method(hc, mname)
+        dom = HashDomain(prog, f, route, fails)
+        env = {}
+        for p in f.params:
+            if p.name == "self":
+                continue
+            if p.name == "keys":
+                env["keys"] = GenV(("caller", "keys"), tuple(K)) if oneshot else TupleV(tuple(K))
+            elif p.name == "values":
+                new_object(env, "values", "dict", DictV(tuple((k, Opaque("val:" + k.tag)) for k in K)))
+            elif p.kind == "vararg":
+                env[p.name] = TupleV(tuple(extra))
+            elif p.kind == "kwarg":
+                new_object(env, p.name, "dict", DictV(()))
+            elif p.name == "gets":
+                env[p.name] = Const(bool(gets))
+            else:
+                env[p.name] = Val("arg:" + p.name)
+        return f, Interp(dom, f.node, prog).run(Env(env))
+
+    def check(rule, f, outs, what, construct, want_runs, want_value, why):
+        rets, excs = outs.of("ret"), outs.of("exc")
+        problems, vague = [], False
+        if excs or not rets:
+            problems.append("it raises %s" % sorted({str(e.cls) for s, e, t in excs}) if excs else "it does not return")
+        for s, v, t in rets:
+            if s.get("imprecise", 0):
+                vague = True
+            runs = s.get("runs", ())
+            val = deref(v, s)
+            if want_runs is not None and not _same_runs(runs, want_runs):
+                problems.append("the safe runner is called as %s; expected %s" % (_runs_txt(runs), _runs_txt(want_runs)))
+            if want_value is not None and not _same_value(val, want_value):
+                problems.append("it returns %s; expected %s" % (_d(val), _d(want_value)))
+        if not problems:
+            rule.ok(what)
+        elif vague:
+            rule.undecided(construct, "%s -- %s" % (what, "; ".join(problems[:2])))
+        else:
+            rule.fail(construct, "%s: %s (%s)" % (what, "; ".join(dict.fromkeys(problems)), why), fn=f, node=f.node)
+
+    n = 0
+    for route in routes:
+        rt = ", ".join("%s->%s" % (k, v or "no server") for k, v in sorted(route.items()))
+        order = servers_in_order(route)
+        for mname, gets in (("get_many", False), ("get_many", True), ("gets_many", None)):
+            meth = "gets_many" if (gets or mname == "gets_many") else "get_many"
+            for oneshot in (False, True):
+                n += 1
+                f, outs = run(mname, route, oneshot=oneshot, gets=gets)
+                want_runs = [("_safely_run_func", (Opaque("client:" + srv), BoundCall(Opaque("client:" + srv), Const(meth)), DictV(()), TupleV(tuple(I[k.tag] for k in K if route[k.tag] == srv))), ()) for srv in order]
+                want_value = DictV(tuple((I[k.tag], Opaque("value:%s:%s" % (route[k.tag], I[k.tag].tag))) for k in K if route[k.tag] is not None))
+                what = "HashClient.%s(%s%s) with routing %s" % (mname, "gets=%s, " % gets if gets is not None else "", "one-shot keys" if oneshot else "3 keys", rt)
+                check(r3, f, outs, what + ": one %s call per server with exactly its own keys" % meth, "HashClient.%s:batches" % mname, want_runs, None, "each key must be sent once, to the client of the server its own routing call returned, under its inner key; a key without server is skipped")
+                check(r4, f, outs, what + ": the answers of all servers are merged", "HashClient.%s:merge" % mname, None, want_value, "the result is the union of the per-server answers")
+        for fails in ((), ("inner:K3",), ("inner:K1", "inner:K2")):
+            n += 1
+            f, outs = run("set_many", route, fails=fails)
+            want_runs = [("_safely_run_set_many", (Opaque("client:" + srv), DictV(tuple((I[k.tag], Opaque("val:" + k.tag)) for k in K if route[k.tag] == srv))), ()) for srv in order]
+            unrouted = [I[k.tag] for k in K if route[k.tag] is None]
+            refused = [I[k.tag] for srv in order for k in K if route[k.tag] == srv and I[k.tag].tag in fails]
+            what = "HashClient.set_many(3 items) with routing %s, refused by the servers: %s" % (rt, list(fails) or "none")
+            check(r3, f, outs, what + ": one set_many per server with exactly its own items", "HashClient.set_many:batches", want_runs, None, "each item must be sent once, to the client of the server its own routing call returned, under its inner key with its own value")
+            check(r4, f, outs, what + ": failed keys = keys without server + keys the servers refused", "HashClient.set_many:merge", None, TupleV(tuple(unrouted + refused)), "set_many returns every key that was not stored")
+        for oneshot in (False, True):
+            n += 1
+            f, outs = run("delete_many", route, oneshot=oneshot)
+            want_runs = [("_safely_run_func", (Opaque("client:" + route[k.tag]), BoundCall(Opaque("client:" + route[k.tag]), Const("delete")), Const(False), I[k.tag]), ()) for k in K if route[k.tag] is not None]
+            what = "HashClient.delete_many(%s) with routing %s" % ("one-shot keys" if oneshot else "3 keys", rt)
+            check(r4, f, outs, what + ": delete runs once per key, on that key's server", "HashClient.delete_many:visits", want_runs, Const(True), "delete_many runs the delete command exactly once for every key")
+    r3.count("batching scenarios", n)
+    r3.floor("batching scenarios", n, 40)
+
+
+def _same_runs(got, want):
+    if len(got) != len(want):
+        return False
+    for (gn, ga, gk), (wn, wa, wk) in zip(got, want):
+        if gn != wn or len(ga) != len(wa) or gk != wk:
+            return False
+        for g, w in zip(ga, wa):
+            if not _same_value(g, w):
+                return False
+    return True
+
+
+def _same_value(g, w):
+    if isinstance(w, DictV) and isinstance(g, DictV):
+        return len(g.items) == len(w.items) and all(any(gk == wk and _same_value(gv, wv) for gk, gv in g.items) for wk, wv in w.items)
+    return g == w
+
+
+def _runs_txt(runs):
+    return "[%s]" % "; ".join("%s(%s)" % (n, ", ".join(_d(x) for x in a)) for n, a, k in runs)
+
+
 def run(chk):
     prog = chk.prog
     hc = prog.cls("HashClient")
@@ -380,115 +604,7 @@ def run(chk):
     # ------------------------------------------------------------------ R3 / R4 batches
     r3 = chk.rule("C12.R3", "batching: each key is inserted exactly once, under the inner key, into the batch of the server its own routing call returned; skipped only when no server is left; each batch dispatched once to that server's client")
     r4 = chk.rule("C12.R4", "merge: get_many returns the union of the per-server answers, set_many concatenates the failures, delete_many visits each key once")
-    for mname, items_mode in (("set_many", True), ("get_many", False)):
-        f = prog.method(hc, mname)
-        loops = sorted([n for n in f.node.body if isinstance(n, ast.For)], key=lambda n: n.lineno)
-        if len(loops) != 2:
-            raise AnalysisError("C12.R3: HashClient.%s has %d top-level loops (builder + dispatch expected)" % (mname, len(loops)))
-        build, disp = loops
-        bvars = [n.targets[0].id for n in walk_no_nested(f.node) if isinstance(n, ast.Assign) and isinstance(n.targets[0], ast.Name) and isinstance(n.value, ast.Call) and call_name(n.value).endswith("defaultdict")]
-        if len(bvars) != 1:
-            raise AnalysisError("C12.R3: cannot identify the batch map of HashClient.%s" % mname)
-        bvar = bvars[0]
-        inp = f.pos_params()[0].name
-        # builder iterates the caller's collection itself
-        it = build.iter
-        if items_mode:
-            okit = isinstance(it, ast.Call) and isinstance(it.func, ast.Attribute) and it.func.attr == "items" and isinstance(it.func.value, ast.Name) and it.func.value.id == inp and isinstance(build.target, ast.Tuple) and len(build.target.elts) == 2
-        else:
-            okit = isinstance(it, ast.Name) and it.id == inp and isinstance(build.target, ast.Name)
-        r3.expect(okit, "%s: the builder loop iterates the caller's %s" % (mname, inp), "HashClient.%s:builder-iterable" % mname, "the builder loop of HashClient.%s iterates `%s`, not every element of `%s` once" % (mname, node_src(it), inp), fn=f, node=build)
-        if not okit:
-            continue
-        dom = BatchDomain(prog, f, bvar, items_mode)
-        interp = Interp(dom, f.node, prog)
-        elem = TupleV((Sym("k"), Sym("v"))) if items_mode else Sym("k")
-        tgt, _ = interp.assign(build.target, elem, Env({"ins": ()}), Ctx(f.node))
-        outs = interp.block(build.body, [(s, ()) for s in tgt], Ctx(f.node))
-        for construct, msg, node in dom.problems:
-            r3.fail("HashClient.%s:%s" % (mname, construct), msg, fn=f, node=node)
-        for node, args, kwargs in dom.route_calls:
-            r3.expect(len(args) == 1 and args[0] == Sym("k") and not kwargs, "%s routes the loop's own key" % mname, "HashClient.%s:routes-other-value" % mname, "the builder loop of %s routes %s instead of the key of the current element" % (mname, [_d(a) for a in args]), fn=f, node=node)
-        if not dom.route_calls:
-            r3.fail("HashClient.%s:no-routing" % mname, "the builder loop never calls the router", fn=f, node=build)
-        ends = outs.of("norm") + outs.of("cont")
-        n_ok = 0
-        for s, v, t in ends:
-            ins = s.get("ins", ())
-            cl = None
-            for k_, v_ in s.d.items():
-                if isinstance(v_, ClientOf) or v_ == NONE:
-                    pass
-            client_val = _client_value(s)
-            if client_val == NONE:
-                r3.expect(len(ins) == 0, "%s: no server left -> key skipped" % mname, "HashClient.%s:insert-without-client" % mname, "a key is batched although the router returned no client", fn=f, node=build)
-                continue
-            if len(ins) != 1:
-                r3.fail("HashClient.%s:key-%s" % (mname, "dropped" if not ins else "duplicated"), "an iteration of the builder loop of %s can complete with %d insertions although the router returned a client: a requested key is %s (path: %s)" % (mname, len(ins), "silently dropped from the batch" if not ins else "sent more than once", fmt_trace(t)), fn=f, node=build, witness=fmt_trace(t))
-                continue
-            server, key, value, line = ins[0]
-            okk = server == ServerOf(Sym("k")) and key == InnerOf(Sym("k")) and (value == Sym("v") if items_mode else True)
-            n_ok += 1
-            r3.expect(okk, "%s: batch[server of this key][inner key]" % mname, "HashClient.%s:batch-index" % mname, "the builder loop of %s files the key under (%s, %s%s) instead of (server of the routed client, inner key%s): a key can end up in another server's batch or under another name" % (mname, _d(server), _d(key), (", " + _d(value)) if items_mode else "", ", its value" if items_mode else ""), fn=f, node=build)
-        if outs.of("brk") or outs.of("ret"):
-            r3.fail("HashClient.%s:builder-leaves-early" % mname, "the builder loop can stop before all keys were batched", fn=f, node=build)
-        r3.floor("%s builder paths with a routed client" % mname, n_ok, 1)
-        # dispatch loop: evaluated semantically
-        okd = isinstance(disp.iter, ast.Call) and isinstance(disp.iter.func, ast.Attribute) and disp.iter.func.attr == "items" and isinstance(disp.iter.func.value, ast.Name) and disp.iter.func.value.id == bvar and isinstance(disp.target, ast.Tuple) and len(disp.target.elts) == 2
-        r3.expect(okd, "%s: dispatch iterates %s.items()" % (mname, bvar), "HashClient.%s:dispatch-iterable" % mname, "the dispatch loop of %s does not iterate every (server, batch) of the batch map" % mname, fn=f, node=disp)
-        if not okd:
-            continue
-        nested = [n for n in ast.walk(disp) if isinstance(n, (ast.For, ast.While)) and n is not disp]
-        slicing_ok = False
-        if nested:
-            batchvar = disp.target.elts[1].id if isinstance(disp.target.elts[1], ast.Name) else None
-            nl = nested[0]
-            okn = len(nested) == 1 and isinstance(nl, ast.For) and isinstance(nl.target, ast.Name) and isinstance(nl.iter, ast.Call) and call_name(nl.iter) == "range" and len(nl.iter.args) == 3 and isinstance(nl.iter.args[0], ast.Constant) and nl.iter.args[0].value == 0 and isinstance(nl.iter.args[1], ast.Call) and call_name(nl.iter.args[1]) == "len" and isinstance(nl.iter.args[1].args[0], ast.Name) and nl.iter.args[1].args[0].id == batchvar
-            step = node_src(nl.iter.args[2]) if okn else None
-            sl = [x for x in ast.walk(nl) if isinstance(x, ast.Subscript) and isinstance(x.value, ast.Name) and x.value.id == batchvar and isinstance(x.slice, ast.Slice)] if okn else []
-            slicing_ok = bool(okn and len(sl) == 1 and isinstance(sl[0].slice.lower, ast.Name) and sl[0].slice.lower.id == nl.target.id and isinstance(sl[0].slice.upper, ast.BinOp) and isinstance(sl[0].slice.upper.op, ast.Add) and node_src(sl[0].slice.upper.left) == nl.target.id and node_src(sl[0].slice.upper.right) == step)
-            r3.expect(slicing_ok, "%s: the batch is sent in consecutive slices that partition it" % mname, "HashClient.%s:dispatch-nested-loop" % mname, "the dispatch loop of %s contains another loop that is not the slicing idiom `for i in range(0, len(batch), N): batch[i:i+N]`: keys of a batch may be sent twice or not at all" % mname, fn=f, node=nl)
-        va = [p.name for p in f.params if p.kind == "vararg"]
-        rets = sorted([r_ for r_ in walk_no_nested(f.node) if isinstance(r_, ast.Return) and isinstance(r_.value, ast.Name)], key=lambda r_: r_.lineno)
-        acc_name = rets[-1].value.id if rets else None
-        for gets in ((True, False) if not items_mode else (None,)):
-            ddom = DispatchDomain(prog, f)
-            di = Interp(ddom, f.node, prog)
-            env = {va[0]: StarArgs(va[0])} if va else {}
-            if gets is not None and f.param("gets") is not None:
-                env["gets"] = Truthiness(gets)
-            tg, _ = di.assign(disp.target, TupleV((Sym("srv"), Sym("batch"))), Env(env), Ctx(f.node))
-            douts = di.block(disp.body, [(s_, ()) for s_ in tg], Ctx(f.node))
-            ends = douts.of("norm") + douts.of("cont")
-            if not ends or douts.of("brk") or douts.of("ret") or douts.of("exc"):
-                r3.fail("HashClient.%s:dispatch-leaves-early" % mname, "an iteration of the dispatch loop of %s can end early (break/return/raise): later batches are not sent" % mname, fn=f, node=disp)
-            for s_, v_, t_ in ends:
-                runs = s_.get("runs", ())
-                merges = s_.get("merges", ())
-                client = ("client-of-key", ("node-name-of", Sym("srv")))
-                star = ("STAR", va[0]) if va else None
-                if items_mode:
-                    want = ("self._safely_run_set_many", tuple(x for x in (client, Sym("batch"), star) if x is not None))
-                else:
-                    meth = "gets_many" if gets else "get_many"
-                    payload = ("slice-of", Sym("batch")) if (nested and slicing_ok) else Sym("batch")
-                    want = ("self._safely_run_func", tuple(x for x in (client, BoundCall(client, Const(meth)), TOP, payload, star) if x is not None))
-                n_want = 2 if (nested and slicing_ok) else 1
-                okrun = len(runs) == n_want and all(r_[0] == want[0] and len(r_[1]) == len(want[1]) and all(w is TOP or w == g for w, g in zip(want[1], r_[1])) for r_ in runs)
-                r3.expect(okrun, "%s%s: one runner call with the batch's own client, method and batch" % (mname, "" if gets is None else "(gets=%s)" % gets), "HashClient.%s:dispatch-batch" % mname, "an iteration of the dispatch loop of %s%s calls the safe runner as %s; expected one call with (the client registered under the batch's own server name%s, the server's own batch unmodified%s, *args)" % (mname, "" if gets is None else " (gets=%s)" % gets, [(n_, [_d(x) for x in fl]) for n_, fl in runs], "" if items_mode else ", that client's %s" % ("gets_many" if gets else "get_many"), " or its consecutive slices" if nested else ""), fn=f, node=disp)
-                okm = len(merges) == len(runs) and all(m_[0] == acc_name for m_ in merges) and [m_[1] for m_ in merges] == [ResultOf(i_ + 1) for i_ in range(len(runs))]
-                rule_m = r4
-                if items_mode:
-                    rule_m.expect(okm, "set_many: the runner's failed keys are added to the list that is returned", "HashClient.set_many:merge", "set_many does not add the failed keys of every batch to the list it returns (merges: %s, returned: %s)" % (merges, acc_name), fn=f, node=disp)
-                else:
-                    rule_m.expect(okm, "get_many%s: every answer is merged into the dict that is returned" % ("" if gets is None else "(gets=%s)" % gets), "HashClient.get_many:merge", "get_many does not merge every batch's (or slice's) answer into the dict it returns (merges: %s, returned: %s)" % ([(m_[0], _d(m_[1])) for m_ in merges], acc_name), fn=f, node=disp)
-    dm = prog.method(hc, "delete_many")
-    loops = [n for n in walk_no_nested(dm.node) if isinstance(n, ast.For)]
-    okdm = len(loops) == 1 and isinstance(loops[0].iter, ast.Name) and loops[0].iter.id == dm.pos_params()[0].name
-    if okdm:
-        calls = [c for c in ast.walk(loops[0]) if isinstance(c, ast.Call) and call_name(c) == "self._run_cmd"]
-        okdm = len(calls) == 1 and isinstance(calls[0].args[1], ast.Name) and isinstance(loops[0].target, ast.Name) and calls[0].args[1].id == loops[0].target.id and not [n for n in ast.walk(loops[0]) if isinstance(n, (ast.Break, ast.Continue, ast.Return))]
-    r4.expect(okdm, "delete_many runs delete once per key of the input", "HashClient.delete_many:visits", "delete_many does not run the delete command exactly once for every key", fn=dm, node=dm.node)
+    batching_rows(prog, hc, r3, r4)
     # add_server keeps clients[_make_client_key(s)].server == s
     add = prog.method(hc, "add_server")
     ctor = [c for c in walk_no_nested(add.node) if isinstance(c, ast.Call) and any(k.arg is None and is_self_attr(k.value, "default_kwargs") for k in c.keywords)]
@@ -538,4 +654,12 @@ def _d(v):
         return "id(%s)" % _d(v[1])
     if isinstance(v, Opaque):
         return str(v.tag)
+    if isinstance(v, TupleV):
+        return "[%s]" % ", ".join(_d(x) for x in v.items)
+    if isinstance(v, DictV):
+        return "{%s}" % ", ".join("%s: %s" % (_d(k), _d(x)) for k, x in v.items)
+    if isinstance(v, BoundCall):
+        return "%s.%s" % (_d(v.obj), v.attr.v if isinstance(v.attr, Const) else v.attr)
+    if isinstance(v, Const):
+        return repr(v.v)
     return str(v)
